@@ -650,7 +650,7 @@ func (r *runner) randomBlock(rd *rand.Rand) Blk {
 			}
 		case k < 80:
 			for _, d := range []string{"DEPA", "DEPB"} {
-				if st.Bal[d] > 0 && st.H >= w.u.Till[d] {
+				if st.Bal[d] > 0 && st.H >= w.u.Till[d] && !slices.Contains(st.Blocked, d[3:]) {
 					return Blk{Op: "withdraw", A: d}
 				}
 			}
